@@ -40,6 +40,9 @@ def cases(tier):
     for ai in range(len(ANCHORS)):
         for gs in ms.graph_slice("n3" if tier == "quick" else "n4e3"):
             yield {"gs": list(gs), "anchor": ai, "tier": tier}
+        # maps with a zero-length road (two co-located nodes, e.g. a doubled node of an OSM extract)
+        for mask in al.masks(3, max_edges=3 if tier == "quick" else None):
+            yield {"gs": ["ZERO", 3, mask], "anchor": ai, "tier": tier}
 
 
 def to_ll(anchor, p):
@@ -70,6 +73,8 @@ def run_case(case):
         # exactly equal, so any rounding (in either metric) flips a finite penalty.  That discontinuity of the model is not
         # a property of the metric; GRID inputs are therefore run with the first-order model only (see DESIGN.md, C15).
         cfgs = [c for c in CFGS if pos == "GENERIC" or not c["avoid"]]
+        if pos == "ZERO":
+            traces = [t for t in traces if len(t) <= 2]
     for trace in traces:
         tl = [to_ll(anchor, p) for p in trace]
         for c in cfgs:
